@@ -592,16 +592,30 @@ class World:
     """Context manager that installs every seam, and removes it again."""
 
     def __init__(self, stdin_data=None, stdin_sched=None, stdout_sched=None, stdin_damaged=(),
-                 vcwd=None, stdout_unbuffered=False, environ=None):
+                 vcwd=None, stdout_unbuffered=False, environ=None, stdin_file=None):
         self.fs = SimFS()
         self.vcwd = (vcwd or VCWD).rstrip("/") + "/"
         self.log = self.fs.log
         self.stdin_sched = stdin_sched or ChunkSchedule("whole", 0)
         self.stdout_sched = stdout_sched or ChunkSchedule("whole", 0)
         self.stdin_data = stdin_data
-        self.stdin_raw = SimRawPipe(stdin_data if stdin_data is not None else b"",
-                                    self.stdin_sched, self.log)
-        self.stdin_buf = TracedReader(io.BufferedReader(self.stdin_raw), "<stdin>", stdin_damaged)
+        self.stdin_is_file = stdin_file is not None
+        if stdin_file is not None:
+            # `tool - < file`, possibly with the descriptor already advanced:
+            # stdin is a seekable regular file positioned at `start`
+            content, start = stdin_file
+            self.fs.files["/simfs/.stdin-redirect"] = bytearray(content)
+            self.stdin_raw = SimRawFile(self.fs, "/simfs/.stdin-redirect", "<stdin>", True, False)
+            self.stdin_raw._pos = start
+            self.stdin_raw.raw_reads = 0
+            self.stdin_raw.fileno = lambda: 0
+            self.stdin_buf = TracedReader(io.BufferedReader(self.stdin_raw), "<stdin>",
+                                          [start + d for d in stdin_damaged])
+            self.stdin_buf.pos = 0
+        else:
+            self.stdin_raw = SimRawPipe(stdin_data if stdin_data is not None else b"",
+                                        self.stdin_sched, self.log)
+            self.stdin_buf = TracedReader(io.BufferedReader(self.stdin_raw), "<stdin>", stdin_damaged)
         if stdout_unbuffered:
             # python -u / PYTHONUNBUFFERED=1: sys.stdout.buffer IS the raw file; a blocking
             # descriptor takes every write whole
@@ -689,6 +703,8 @@ class World:
         raw = self.fds.get(fd)
         if raw is not None:
             return raw.seek(pos, how)
+        if fd == 0 and self.stdin_is_file:
+            return self.stdin_raw.seek(pos, how)
         if fd in (0, 1, 2):
             raise OSError(29, "Illegal seek")
         return _REAL["os_lseek"](fd, pos, how)
@@ -748,6 +764,8 @@ class World:
         return False
 
     def _os_fstat(self, fd):
+        if fd == 0 and self.stdin_is_file:
+            return self._stat_result(len(self.stdin_raw._buf()), path="/simfs/.stdin-redirect")
         if fd in (0, 1, 2):
             return self._stat_result(0, fifo=True)
         raw = self.fds.get(fd)
